@@ -99,7 +99,7 @@ def get_eof_2qubit(rho:np.ndarray):
     if tmp0==0:
         ret = 0
     else:
-        tmp1 = (1 + np.sqrt(1-tmp0*tmp0))/2
+        tmp1 = (1 + np.sqrt(np.maximum(0, 1-tmp0*tmp0)))/2 #the concurrence of a maximally entangled state can round to 1+1ulp
         ret = -scipy.special.xlogy(tmp1, tmp1) - scipy.special.xlogy(1-tmp1, 1-tmp1) #0*log(0)=0 when the concurrence is tiny
     return ret
 
